@@ -98,6 +98,22 @@ class CContext:
             max_value = (2 ** (bit_size)) - 1
         return max_value
 
+    @staticmethod
+    def wrap_integer(value: int, bit_size: int, signed: bool) -> int:
+        """Reduce the value modulo 2**bit_size into the (un)signed range."""
+        value &= (1 << bit_size) - 1
+        if signed and value >> (bit_size - 1):
+            value -= 1 << bit_size
+        return value
+
+    def to_integer_type(self, typ: types.CType, value: int) -> int:
+        """Convert the value to the given integer type."""
+        if not typ.is_integer:
+            raise ValueError("Can only convert to integer types")
+
+        bit_size = 8 * self.type_size_map[typ.type_id][0]
+        return self.wrap_integer(value, bit_size, typ.is_signed)
+
     def sizeof(self, typ: types.CType):
         """Given a type, determine its size in whole bytes"""
         if not isinstance(typ, types.CType):
@@ -281,6 +297,10 @@ class CContext:
         fmt = self.ctypes_names[tid]
         # Check format with arch options:
         assert self.sizeof(typ) == struct.calcsize(fmt)
+        if tid not in BasicType.FLOAT_TYPES:
+            # Convert the value to the destination type:
+            signed = tid in BasicType.SIGNED_INTEGER_TYPES
+            value = self.wrap_integer(value, 8 * struct.calcsize(fmt), signed)
         return struct.pack(fmt, value)
 
     def _make_ival(self, typ, ival):
